@@ -141,24 +141,27 @@ func hashesOf(e *env, txs tx.Transactions) []string {
 	return out
 }
 
-// accounting renders quota, cost and flags canonically.
+// accounting renders what both pools must agree on: the pool size, the pending costs and the executable objects. Which
+// non-executable objects survive the 20 % rule depends on the evaluation order of a wash (Go map order), so their identity
+// - and with it the quota entries - may legitimately differ between two pools; their number may not.
 func accounting(e *env, s txpool.VerifSnap) string {
-	var q, c, o []string
-	for a, n := range s.Quota {
-		q = append(q, fmt.Sprintf("%s=%d", e.acctName(a), n))
-	}
+	var c, o []string
 	for a, v := range s.Cost {
 		c = append(c, fmt.Sprintf("%s=%s", e.acctName(a), v))
 	}
+	nonexec := 0
 	for _, x := range s.Objs {
 		h := "?"
 		if sp, ok := e.txs[x.Hash]; ok {
 			h = sp.h
 		}
-		o = append(o, fmt.Sprintf("%s:%v", h, x.Executable))
+		if x.Executable {
+			o = append(o, h)
+		} else {
+			nonexec++
+		}
 	}
-	sort.Strings(q)
 	sort.Strings(c)
 	sort.Strings(o)
-	return fmt.Sprintf("len=%d quota=%v cost=%v objs=%v", s.Len, q, c, o)
+	return fmt.Sprintf("len=%d cost=%v executable=%v non-executable=%d", s.Len, c, o, nonexec)
 }
